@@ -904,6 +904,9 @@ func (d *Decl) FullEnv(o *Opt) string {
 // OptString is the human-friendly form used in messages: "-s, --ns.long".
 func (d *Decl) OptString(o *Opt) string {
 	switch {
+	case o.Short == 0 && o.Long == "":
+		return "" // an option that only has an ini-name
+
 	case o.Short != 0 && o.Long != "":
 		return "-" + string(o.Short) + ", --" + d.FullLong(o)
 	case o.Short != 0:
